@@ -316,10 +316,9 @@ class SpooledBytesIO(SpooledIOBase):
 
     def readline(self, length=None):
         self._checkClosed()
-        if length:
-            return self.buffer.readline(length)
-        else:
+        if length is None:
             return self.buffer.readline()
+        return self.buffer.readline(length)
 
     def readlines(self, sizehint=0):
         # Not buffer.readlines(sizehint): BytesIO stops once the total reaches
